@@ -348,6 +348,11 @@ impl Message {
 
     /// Send a message to the client by breaking it up into CTAP2 HID packets and sending them in sequence.
     pub fn send<W: std::io::Write>(self, writer: &mut W) -> Result<(), std::io::Error> {
+        // the fields are public: what `Message::new` refuses is refused here too, before anything is written
+        let rest = self.payload.len().saturating_sub(InitHeader::MAX_PAYLOAD_SIZE);
+        if self.payload_len != self.payload.len() || rest.div_ceil(ContHeader::MAX_PAYLOAD_SIZE) > 128 {
+            return Err(std::io::ErrorKind::InvalidInput.into());
+        }
         let packets = self.to_packets();
         let mut buf = [0; MAX_PACKET_SIZE];
         let num_packets = packets.len() - 1;
